@@ -1,507 +1,230 @@
-"""C12 -- Nastran number fields (partial claim): decade ladder, integer arms, scientific helpers, card grid."""
+"""C12 -- Nastran number fields (partial claim): decade ladder, integer arms, scientific helpers, card grid.
+
+Every rule decides on *values*: the formatters are evaluated on abstract strings (verifier/c12_str.py: f-strings, str.format, `%`,
+format(), rjust ... of the same spec are one node; concatenation adds widths; strip / replace / slice / justify are modelled on the
+columns of the rendering, verifier/c12_model.py) with the float parameter confined to an interval that every comparison splits
+(verifier/c12_exec.py), so an if/elif ladder, its inverted form, early returns and a loop over a literal (bound, spec) table give the same
+leaves (interval, rendering).  The card writers are evaluated per field position, the readers on symbols (verifier/c12_cards.py).
+"""
 from __future__ import annotations
 
-import ast
-import re
 from fractions import Fraction
 
-from . import e2_formula as F
 from .core import AnchorError, Unsupported
-from .e1_srcmodel import dotted, walk_no_nested, parent, utext
-from .e2_eval import Evaluator, is_unknown, need
+from .c12_str import Lit, Fmt, Strip, CallS, Round, Unk
+from .c12_exec import walk_value
+from .c12_model import width_bounds
+from .c12_float import (BULK, SCI, FloatAnalysis, SciRun, SCI_INTERVALS, describe, inner_of, first_stage_precision, _abs_range, decades)
 
-BULK = "pyyeti/nastran/bulk.py"
+FLOATS = (("format_float8", 8), ("format_float16", 16))
+
+
+def _analysis(ctx, q, W):
+    cache = ctx.__dict__.setdefault("_c12_float", {})
+    if q not in cache:
+        cache[q] = FloatAnalysis(ctx, q, W)
+    return cache[q]
+
+
+def _regtxt(reg):
+    side = "-" if reg.neg else ""
+    if reg.carry_upto < 0:
+        return f"{side}[1e{reg.k - 1}, 1e{reg.k})"
+    return f"{side}x that rounds up to 1e{reg.k} at <= {reg.carry_upto} decimals"
 
 
 # ---------------------------------------------------------------------------
-# E5-lite: format-spec parsing
-SPEC = re.compile(r"^(?P<align>[<>^])?(?P<width>\d+)?(?:\.(?P<prec>\d+))?(?P<type>[sdfeEgG])?$")
-
-
-def parse_spec(fv):
-    """FormattedValue -> (align, width, prec, type) for a literal format spec, else None."""
-    if fv.format_spec is None:
-        return (None, None, None, None)
-    js = fv.format_spec
-    if not (isinstance(js, ast.JoinedStr) and all(isinstance(v, ast.Constant) for v in js.values)):
-        return None
-    txt = "".join(v.value for v in js.values)
-    m = SPEC.match(txt)
-    if not m:
-        return None
-    g = m.groupdict()
-    return (g["align"], int(g["width"]) if g["width"] else None, int(g["prec"]) if g["prec"] else None, g["type"])
-
-
-def single_fv(node):
-    """f"{expr:spec}" with nothing else -> FormattedValue, else None"""
-    if isinstance(node, ast.JoinedStr) and len(node.values) == 1 and isinstance(node.values[0], ast.FormattedValue):
-        return node.values[0]
-    return None
-
-
-def pow10(c):
-    """Fraction -> k with c == 10**k, else None"""
-    c = Fraction(c)
-    if c <= 0:
-        return None
-    k = 0
-    while c >= 10:
-        c /= 10
-        k += 1
-    while c < 1:
-        c *= 10
-        k -= 1
-    return k if c == 1 else None
-
-
-def chain_arms(first_if):
-    arms = []
-    node = first_if
-    while True:
-        arms.append((node.test, node.body, node))
-        if len(node.orelse) == 1 and isinstance(node.orelse[0], ast.If):
-            node = node.orelse[0]
-        else:
-            arms.append((None, node.orelse, node))
-            break
-    return arms
-
-
-def bound_of(test, var, positive):
-    """value < c  (positive side)  /  value > -c (negative side) -> Fraction c"""
-    if not (isinstance(test, ast.Compare) and len(test.ops) == 1 and isinstance(test.left, ast.Name) and test.left.id == var):
-        return None
-    rhs = test.comparators[0]
-    try:
-        c = Fraction(repr(float(ast.literal_eval(rhs))))
-    except Exception:  # noqa
-        return None
-    if positive and isinstance(test.ops[0], ast.Lt) and c > 0:
-        return c
-    if not positive and isinstance(test.ops[0], ast.Gt) and c < 0:
-        return -c
-    return None
-
-
-def ladder_arm(body, var):
-    """[field = f"{value:W.Pf}"] (+ [field = field.replace('-0.', '-.')]) -> (W, P, strips_zero) or None"""
-    if not body or not isinstance(body[0], ast.Assign):
-        return None
-    fv = single_fv(body[0].value)
-    if fv is None or not (isinstance(fv.value, ast.Name) and fv.value.id == var):
-        return None
-    sp = parse_spec(fv)
-    if not sp or sp[3] != "f" or sp[1] is None or sp[2] is None:
-        return None
-    z = False
-    rest = body[1:]
-    if rest:
-        if len(rest) == 1 and isinstance(rest[0], ast.Assign) and isinstance(rest[0].value, ast.Call) \
-                and isinstance(rest[0].value.func, ast.Attribute) and rest[0].value.func.attr == "replace" \
-                and [getattr(a, "value", None) for a in rest[0].value.args] == ["-0.", "-."]:
-            z = True
-        else:
-            return None
-    return sp[1], sp[2], z
-
-
-def _final_format(fn):
-    """field = f"{field.strip(' 0'):>Ws}" at function level -> (W, stripchars, stmt)"""
-    for st in fn.body:
-        if isinstance(st, ast.Assign):
-            fv = single_fv(st.value)
-            if fv is not None and isinstance(fv.value, ast.Call) and isinstance(fv.value.func, ast.Attribute) \
-                    and fv.value.func.attr == "strip" and fv.value.args and isinstance(fv.value.args[0], ast.Constant):
-                sp = parse_spec(fv)
-                if sp and sp[0] == ">" and sp[3] == "s":
-                    return sp[1], fv.value.args[0].value, st
-    return None
-
-
 def r1_ladder(ctx):
-    for q, W in (("format_float8", 8), ("format_float16", 16)):
-        fn = ctx.src.func(BULK, q)
-        var = fn.args.args[0].arg
-        top = [st for st in fn.body if isinstance(st, ast.If)]
-        if not top or ast.unparse(top[0].test).replace(" ", "") not in (f"{var}>=0.0", f"{var}>=0"):
-            raise AnchorError(f"{q}: sign split `if {var} >= 0.0` not found")
-        fin = _final_format(fn)
-        ok = fin is not None and fin[0] == W and "0" in fin[1] and " " in fin[1]
-        ctx.check(ok, f"{q}: ladder results are stripped of blanks and zeros and right-justified to {W} (`{{field.strip(' 0'):>{W}s}}`)", fn)
-        # the leading-zero strip is what the k<=0 rungs rely on; on the negative side the arm itself must replace '-0.'
-        for positive, body in ((True, top[0].body), (False, top[0].orelse)):
-            side = "positive" if positive else "negative"
-            if not body or not isinstance(body[0], ast.If):
-                raise AnchorError(f"{q}: {side} chain")
-            arms = chain_arms(body[0])
-            prev_bound = None
-            prev_P = None
-            nrungs = 0
-            s = 0 if positive else 1
-            for test, abody, node in arms:
-                b = bound_of(test, var, positive) if test is not None else None
-                la = ladder_arm(abody, var)
-                if la is not None and b is not None:
-                    w, P, zrep = la
-                    k = pow10(b)
-                    tag = f"{q} {side} rung `{ast.unparse(test)}` ({w}.{P}f)"
-                    nrungs += 1
-                    if not ctx.check(k is not None, f"{tag}: bound is a power of ten", node):
-                        prev_bound, prev_P = b, P
-                        continue
-                    if k >= 1:
-                        ok = prev_bound is not None and prev_bound * 10 == b
-                        ctx.check(ok, f"{tag}: rung is exactly one decade [10^{k - 1}, 10^{k})", node,
-                                  None if ok else {"previous bound": str(prev_bound), "bound": str(b)})
-                    else:
-                        ok = prev_bound is not None and prev_bound < b
-                        ctx.check(ok, f"{tag}: lower bound below upper bound", node, nontrivial=False)
-                    # falls through to the final strip/justify (no early return in a ladder arm)
-                    intd = max(k, 1)
-                    if k <= 0:
-                        z = 1 if (positive or zrep) else 0
-                    else:
-                        z = 0
-                        if zrep:
-                            pass  # harmless: no '-0.' can occur for |x| >= 1
-                    width = s + intd + 1 + P - z
-                    ok = width == W and w == W
-                    ctx.check(ok, f"{tag}: sign+digits+point+precision (minus stripped leading zero) = {W} exactly, i.e. maximal precision",
-                              node, None if ok else {"rendered width": width, "field": W, "spec width": w})
-                    # rounding carry 9.99..95 -> 10.0..0 : one more integer digit, fraction all zeros (stripped)
-                    ok = s + (intd + 1) + 1 <= W
-                    ctx.check(ok, f"{tag}: the carry case (value rounds up to 10^{k}) still fits after zeros are stripped", node, nontrivial=False)
-                    if prev_P is not None and k >= 1:
-                        ok = P == prev_P - 1
-                        ctx.check(ok, f"{tag}: precision steps down by one per decade", node,
-                                  None if ok else {"P": P, "previous": prev_P}, nontrivial=False)
-                    prev_P = P
-                elif la is not None and b is None:
-                    ctx.error(f"{q} {side}: ladder-shaped arm with an unrecognised guard", node, ast.unparse(test) if test else "else")
-                if b is not None:
-                    prev_bound = b
-            want = (W - 1) if positive else (W - 2)
-            ok = nrungs == want
-            ctx.check(ok, f"{q} {side}: {want} fixed-notation rungs cover 10^-3..10^{want - 1}", body[0], {"rungs": nrungs})
+    """every decade in which fixed notation carries more digits than the scientific form: fixed notation on every path, all W columns used
+    (maximal precision), the value that rounds up to the next power of ten still fits"""
+    for q, W in FLOATS:
+        A = _analysis(ctx, q, W)
+        for neg in (False, True):
+            side = "negative" if neg else "positive"
+            khi = W - 2 if neg else W - 1
+            for k in range(-1, khi + 1):
+                tag = f"{q} {side} decade [10^{k - 1}, 10^{k})"
+                pk = W - (1 if neg else 0) - max(k, 1) - 1 + (1 if k <= 0 else 0)      # the most decimals the decade has room for
+                cov = A.covering(neg, k, pk)
+                where = cov[0][0].node if cov else A.fn
+                # values that round up to 10^k at that precision may go to the scientific form (they are the next decade's business)
+                notfixed = [lf for lf, reg, fm, im in cov if fm is None and reg.carry_upto < pk]
+                cov = [c for c in cov if c[2] is not None]
+                ok = bool(cov) and not notfixed
+                ctx.check(ok, f"{tag}: rendered in fixed notation (more significant digits than the scientific form) on every path", where,
+                          None if ok else {"paths": [describe(lf.value) if lf.kind == "return" else lf.kind for lf in notfixed][:4]})
+                gen = [(lf, reg, fm, im) for lf, reg, fm, im in cov if reg.carry_upto < 0]
+                bad = []
+                for lf, reg, fm, im in gen:
+                    for m, f in zip(im or [None], fm or [None]):
+                        if m is None or f is None or m.width != W or f.width != W or m.corrupt or m.lossy or f.corrupt:
+                            bad.append({"rendering": describe(lf.value), "columns before justification": getattr(m, "width", None),
+                                        "final columns": getattr(f, "width", None), "problem": (m.corrupt or ("digits cut" if m.lossy else "")) if m else "not modelled"})
+                ok = bool(gen) and not bad
+                ctx.check(ok, f"{tag}: sign + digits + point + precision (minus a stripped leading zero) = {W} exactly, i.e. maximal precision "
+                              f"and exact field width", where, None if ok else bad[:3])
+                car = [(lf, reg, fm, im) for lf, reg, fm, im in cov if reg.carry_upto >= 0]
+                bad = []
+                for lf, reg, fm, im in car:
+                    for f in fm or [None]:
+                        if f is None or f.width != W or f.corrupt:
+                            bad.append({"rendering": describe(lf.value), "case": _regtxt(reg), "columns": getattr(f, "width", None),
+                                        "problem": f.corrupt if f else "not modelled"})
+                ok = not bad
+                ctx.check(ok, f"{tag}: the carry case (value rounds up to 10^{k}) still fits after zeros are stripped", where,
+                          None if ok else bad[:3], nontrivial=bool(car))
+                pts = [f for lf, reg, fm, im in cov for f in (fm or [])]
+                ok = bool(pts) and all(f.point or (f.intd >= W) for f in pts)
+                ctx.check(ok, f"{tag}: the field keeps its decimal point (a real, not an integer field)", where, nontrivial=False)
 
 
 def r1b_integer_arm(ctx):
-    """negative values formatted as `{int(round(value, 0)):Nd}.` must be guarded so that the integer has at most N
-    characters including its sign; sibling contradiction between format_float8 and format_float16"""
-    for q, W in (("format_float8", 8), ("format_float16", 16)):
-        fn = ctx.src.func(BULK, q)
-        var = fn.args.args[0].arg
-        top = [st for st in fn.body if isinstance(st, ast.If)][0]
-        arms = chain_arms(top.orelse[0])
-        hit = None
-        for n in ast.walk(top):
-            if isinstance(n, ast.JoinedStr) and len(n.values) == 2 and isinstance(n.values[0], ast.FormattedValue) \
-                    and isinstance(n.values[1], ast.Constant) and n.values[1].value == ".":
-                sp = parse_spec(n.values[0])
-                if sp and sp[3] == "d" and "round(" in ast.unparse(n.values[0].value):
-                    hit = (n, sp[1])
-        if hit is None:
-            ctx.error(f"{q}: integer-rounding arm `{{int(round(value, 0)):Nd}}.` not found", fn)
+    """arms that print a *rounded* value (`{int(round(value, 0)):Nd}.`, `{round(value):W.1f}[:W]`) are reached only by values whose rounded
+    integer still fits: decided per decade and rounding regime from the interval and the recorded tests of the path"""
+    for q, W in FLOATS:
+        A = _analysis(ctx, q, W)
+        arms = [lf for lf in A.leaves if lf.kind == "return" and any(isinstance(n, Round) for n in walk_value(lf.value))]
+        if not arms:
+            ctx.error(f"{q}: no arm prints a rounded value (integer-rounding arm not found)", A.fn)
             continue
-        node, N = hit
-        ctx.check(N + 1 == W, f"{q}: integer arm renders {N} characters plus the point = {W}", node)
-        # which values reach it?  those not captured by an earlier `value <= -c` guard that returns scientific
-        need_c = Fraction(10) ** (N - 1) - Fraction(1, 2)
-        guard = None
-        for test, body, ifn in arms:
-            if test is None:
+        for lf in arms:
+            cases = A.cases[id(lf)]
+            neg = lf.iv.hi is not None and lf.iv.hi <= 0
+            if not A.is_fixed(lf):
+                ctx.error(f"{q}: arm `{describe(lf.value)}` prints a rounded value in a form that is not modelled", lf.node)
                 continue
-            if isinstance(test, ast.Compare) and isinstance(test.left, ast.Name) and test.left.id == var \
-                    and isinstance(test.ops[0], (ast.LtE, ast.Lt)):
-                try:
-                    c = -Fraction(repr(float(ast.literal_eval(test.comparators[0]))))
-                except Exception:  # noqa
-                    continue
-                sci = any(isinstance(x, ast.Call) and (dotted(x.func) or "").startswith("_format_scientific")
-                          for st in body for x in ast.walk(st))
-                ret = any(isinstance(st, ast.Return) for st in body)
-                if sci and ret:
-                    guard = (c, ifn)
-        # alternative accepted idiom: the decimal-point test is made on the rounded value
-        alt = False
-        for n in ast.walk(top.orelse[0]):
-            if isinstance(n, ast.Call) and isinstance(n.func, ast.Attribute) and n.func.attr == "index":
-                src = ast.unparse(n.func.value)
-                if "round(" in src:
-                    alt = True
-        ok = alt or (guard is not None and guard[0] <= need_c)
-        ctx.check(ok, f"{q}: values that round to an integer of more than {N} characters (value <= -{float(need_c)}) are sent to the "
-                      f"scientific formatter before the `{N}d` arm", node,
-                  None if ok else {"guard found": str(guard[0]) if guard else None, "needed": f"value <= -{float(need_c)}",
-                                   "witness": f"{q}(-{float(need_c) + 0.2}) renders {W + 1} characters"},
-                  key=f"C12-R1b|{q}|negative integer arm unguarded")
-
-
-def _sci_identity(ctx, q, W, extra):
-    fn = ctx.src.func(BULK, q)
-    var = fn.args.args[0].arg
-    e = F.sym("e")  # len(exp2)
-
-    def call(node, ev):
-        d = dotted(node.func)
-        if d == "len":
-            a = ast.unparse(node.args[0])
-            if a == "exp2":
-                return e
-        return NotImplemented
-
-    res = {}
-    for neg in (False, True):
-        def cond(test, ev, neg=neg):
-            t = utext(test)
-            if t in (f"{var}<0", f"{var}<0.0"):
-                return neg
-            if t in (f"{var}==0.0", f"{var}==0"):
-                return False
-            return None
-        ev = Evaluator(env={}, src=ctx.src, call=call, cond=cond)
-        # evaluate only integer bookkeeping statements; capture the precision expression of `fmt`
-        prec = None
-        for st in fn.body:
-            if isinstance(st, ast.Assign) and isinstance(st.targets[0], ast.Name) and st.targets[0].id in ("leftover", "len_exp"):
-                ev.stmt(st)
-            elif isinstance(st, ast.If) and cond(st.test, ev) is not None:
-                branch = st.body if cond(st.test, ev) else st.orelse
-                for s2 in branch:
-                    if isinstance(s2, ast.Assign) and isinstance(s2.targets[0], ast.Name) and s2.targets[0].id == "fmt":
-                        js = s2.value
-                        fvs = [v for v in js.values if isinstance(v, ast.FormattedValue)] if isinstance(js, ast.JoinedStr) else []
-                        consts = "".join(v.value for v in js.values if isinstance(v, ast.Constant)) if isinstance(js, ast.JoinedStr) else ""
-                        if len(fvs) == 1 and consts == "{:1.f}":
-                            prec = ev.ev(fvs[0].value)
-        res[neg] = prec
-    # first-stage precision
-    first = None
-    for st in fn.body:
-        if isinstance(st, ast.Assign) and isinstance(st.targets[0], ast.Name) and st.targets[0].id == "python_value":
-            fv = single_fv(st.value)
-            if fv is not None:
-                sp = parse_spec(fv)
-                if sp and sp[3] == "e":
-                    first = sp[2]
-    # the assembled field
-    fld = None
-    for st in fn.body:
-        if isinstance(st, ast.Assign) and isinstance(st.targets[0], ast.Name) and st.targets[0].id == "field":
-            fv = single_fv(st.value)
-            if fv is not None:
-                sp = parse_spec(fv)
-                parts = []
-                v = fv.value
-                while isinstance(v, ast.BinOp) and isinstance(v.op, ast.Add):
-                    parts.insert(0, v.right)
-                    v = v.left
-                parts.insert(0, v)
-                fld = (sp, [ast.unparse(p) for p in parts], st)
-    return fn, res, first, fld, e
-
-
-def r2_scientific(ctx):
-    for q, W, extra in (("_format_scientific8", 8, 0), ("_format_scientific16", 16, 0), ("format_double16", 16, 1)):
-        fn, res, first, fld, e = _sci_identity(ctx, q, W, extra)
-        if fld is None or fld[0] is None:
-            ctx.error(f"{q}: assembled field", fn)
-            continue
-        sp, parts, st = fld
-        ok = sp[0] == ">" and sp[1] == W and sp[3] == "s"
-        ctx.check(ok, f"{q}: result is right-justified to {W}", st)
-        want_parts = ["svalue4", "'D'", "sign", "exp2"] if extra else ["svalue4", "sign", "exp2"]
-        ok = parts == want_parts
-        ctx.check(ok, f"{q}: field = mantissa {'+ D ' if extra else ''}+ sign + exponent digits", st, parts)
-        for neg in (False, True):
-            P = res[neg]
-            if P is None or is_unknown(P):
-                ctx.error(f"{q}: mantissa precision ({'negative' if neg else 'positive'})", fn, repr(P))
-                continue
-            # [sign] d . P digits  [D] sign exponent
-            total = (1 if neg else 0) + 2 + need(P) + extra + 1 + e
-            ok = total.equals(W)
-            ctx.check(ok, f"{q}: {'negative' if neg else 'positive'} mantissa + exponent fill exactly {W} characters for every exponent length",
-                      fn, None if ok else {"total width": repr(total), "field": W})
-            # precision stays >= 0 for 3-digit exponents
-            p3 = need(P).subs({"e": 3})
-            ok = p3.is_const() and p3.const_value() >= 0
-            ctx.check(ok, f"{q}: mantissa precision non-negative for three-digit exponents ({'neg' if neg else 'pos'})", fn,
-                      None if ok else repr(p3), nontrivial=False)
-            if first is not None:
-                p1 = need(P).subs({"e": 1})
-                ok = p1.is_const() and first - p1.const_value() >= 2
-                ctx.check(ok, f"{q}: first-stage `e` precision ({first}) exceeds the widest final mantissa precision by >= 2 digits "
-                              "(two-stage rounding slack <= 1 percent of the last digit)", fn,
-                          None if ok else {"first stage": first, "final (1-digit exponent)": repr(p1)})
-        ctx.check(first is not None, f"{q}: first-stage scientific rendering found", fn, nontrivial=False)
-        # zero special case is width W
-        z = [n for n in ast.walk(fn) if isinstance(n, ast.Return) and isinstance(n.value, (ast.Constant, ast.Call))]
-        okz = False
-        for r in z:
-            if isinstance(r.value, ast.Constant) and isinstance(r.value.value, str):
-                okz = len(r.value.value) == W
-            elif isinstance(r.value, ast.Call) and isinstance(r.value.func, ast.Attribute) and r.value.func.attr == "format" \
-                    and isinstance(r.value.func.value, ast.Constant):
-                okz = r.value.func.value.value == "{:>%ds}" % W
-        ctx.check(okz, f"{q}: zero is rendered in exactly {W} characters", fn)
-        # exponent sign from |value| < 1
-        sg = [n for n in ast.walk(fn) if isinstance(n, (ast.IfExp, ast.If)) and "abs(" in ast.unparse(n.test)]
-        ok = bool(sg) and ast.unparse(sg[0].test).replace(" ", "") in (f"abs({fn.args.args[0].arg})<1.0", f"abs({fn.args.args[0].arg})<1")
-        ctx.check(ok, f"{q}: exponent sign is '-' exactly when |value| < 1", sg[0] if sg else fn)
+            bad = []
+            for reg, fm, im in cases:
+                for f in fm or [None]:
+                    if f is None or f.width != W or f.corrupt:
+                        bad.append({"values": _regtxt(reg), "columns": getattr(f, "width", None), "problem": f.corrupt if f else "not modelled"})
+            ok = bool(cases) and not bad
+            ctx.check(ok, f"{q}: arm `{describe(lf.value)}` on {lf.iv}: the rounded value has exactly {W} columns for every decade and rounding "
+                          f"case that reaches it (values that round to a wider integer are sent to the scientific formatter first)", lf.node,
+                      None if ok else (bad[:3] or "arm unreachable"),
+                      key=f"C12-R1b|{q}|negative integer arm unguarded" if neg else None)
+            gen = [(reg, im) for reg, fm, im in cases if reg.carry_upto < 0]
+            ok = bool(gen) and all(m.width == W and not m.lossy for reg, im in gen for m in (im or []))
+            ctx.check(ok, f"{q}: arm `{describe(lf.value)}`: integer digits plus the point use all {W} columns", lf.node, nontrivial=False)
 
 
 def r2b_paths(ctx):
-    """every return of the public formatters yields a helper's result or a width-formatted string"""
-    for q, W in (("format_float8", 8), ("format_float16", 16)):
-        fn = ctx.src.func(BULK, q)
-        rets = [n for n in walk_no_nested(fn) if isinstance(n, ast.Return)]
-        for r in rets:
-            v = r.value
-            ok = False
-            why = ast.unparse(v)
-            if isinstance(v, ast.Call) and (dotted(v.func) or "").startswith("_format_scientific") \
-                    and (dotted(v.func) or "").endswith(str(W)):
-                ok = True
-            fv = single_fv(v) if isinstance(v, ast.JoinedStr) else None
-            if fv is not None:
-                sp = parse_spec(fv)
-                ok = bool(sp) and sp[1] == W and sp[0] == ">"
-            if isinstance(v, ast.Name):
-                # reaching definitions in the enclosing block, walking backwards
-                ok, why = _reaching_ok(r, v.id, W)
-            ctx.check(ok, f"{q}: `return {ast.unparse(v)}` yields a {W}-wide field on every path", r, None if ok else why)
-
-
-def _formats_to(expr, W):
-    if isinstance(expr, ast.Call) and (dotted(expr.func) or "") == f"_format_scientific{W}":
-        return True
-    if isinstance(expr, ast.Subscript) and ast.unparse(expr.slice).replace(" ", "") in (f"0:{W}", f":{W}"):
-        return True
-    if isinstance(expr, ast.JoinedStr):
-        tot = 0
-        for p in expr.values:
-            if isinstance(p, ast.Constant):
-                tot += len(p.value)
+    """every return of the public formatters yields exactly W characters, whatever the path, decade and rounding case"""
+    for q, W in FLOATS:
+        A = _analysis(ctx, q, W)
+        n = 0
+        for lf in A.leaves:
+            if lf.kind != "return":
+                continue
+            n += 1
+            what = f"{q}: `return {describe(lf.value)}` on {lf.iv}"
+            if A.is_fixed(lf):
+                cases = A.cases[id(lf)]
+                bad = [{"values": _regtxt(reg), "columns": f.width, "problem": f.corrupt} for reg, fm, im in cases for f in (fm or [])
+                       if f.width != W or f.corrupt]
+                ok = not bad
+                ctx.check(ok, f"{what} yields a {W}-wide field in all {len(cases)} decade / rounding cases of the path", lf.node,
+                          None if ok else bad[:3])
             else:
-                sp = parse_spec(p)
-                if not sp or sp[1] is None:
-                    return False
-                tot += sp[1]
-        return tot == W
-    return False
-
-
-def _reaching_ok(ret, name, W):
-    blk = parent(ret)
-    body = None
-    for fld in ("body", "orelse", "finalbody"):
-        b = getattr(blk, fld, None)
-        if isinstance(b, list) and ret in b:
-            body = b
-    if body is None:
-        return False, "no block"
-    idx = body.index(ret)
-    for st in reversed(body[:idx]):
-        if isinstance(st, ast.Assign) and isinstance(st.targets[0], ast.Name) and st.targets[0].id == name:
-            return (_formats_to(st.value, W), ast.unparse(st.value))
-        if isinstance(st, ast.If):
-            oks = []
-            for br in (st.body, st.orelse):
-                a = [s for s in br if isinstance(s, ast.Assign) and isinstance(s.targets[0], ast.Name) and s.targets[0].id == name]
-                if a:
-                    oks.append(_formats_to(a[-1].value, W))
+                lo, hi = width_bounds(lf.value, A.helper_width)
+                if lo == W and hi == W:
+                    ctx.ok(f"{what} yields a {W}-wide field", lf.node)
+                elif (hi is not None and hi < W) or lo > W:
+                    ctx.fail(f"{what} yields a {W}-wide field", lf.node, {"width between": [lo, hi]})
                 else:
-                    oks.append(None)
-            if all(o is True for o in oks):
-                return True, ""
-            if any(o is False for o in oks):
-                return False, ast.unparse(st)[:200]
-    # function-level return after the final justify
-    return False, "no reaching width-formatted definition found"
+                    ctx.error(f"{what}: width cannot be bounded", lf.node, {"width between": [lo, hi]})
+            # zeros stripped from a scientific field: the exponent must not be able to end in 0
+            for nnode in walk_value(lf.value):
+                if isinstance(nnode, Strip) and nnode.side in ("b", "r") and nnode.chars and "0" in nnode.chars \
+                        and any(isinstance(x, CallS) and x.name in SCI for x in walk_value(nnode.s)):
+                    ks = set()
+                    for neg in (False, True):
+                        rng = _abs_range(lf.iv, neg)
+                        if rng is not None:
+                            ks.update(decades(rng))
+                    badk = sorted(k for k in ks if (k - 1) % 10 == 0)
+                    ok = not badk
+                    ctx.check(ok, f"{what}: zeros are stripped from a scientific field only where its exponent cannot end in 0", lf.node,
+                              None if ok else {"exponents": [k - 1 for k in badk][:5]})
+                    break
+        if n == 0:
+            ctx.error(f"{q}: no return path", A.fn)
 
 
-def r3_card_grid(ctx):
-    """the writers' card grid is the grid the generic reader slices; the fixed-field and comma readers are siblings"""
-    fx = ctx.src.func(BULK, "_rdfixed")
-    cm = ctx.src.func(BULK, "_rdcomma")
+# ---------------------------------------------------------------------------
+def r2_scientific(ctx):
+    for q, W, extra in (("_format_scientific8", 8, ""), ("_format_scientific16", 16, ""), ("format_double16", 16, "D")):
+        fn = ctx.src.func(BULK, q)
+        if not fn.args.args:
+            raise AnchorError(f"{q}: parameter")
+        firsts, finals = set(), {}
+        for label, iv, neg, small in SCI_INTERVALS:
+            for e in (1, 2, 3):
+                run = SciRun(ctx, q, label, iv, neg, small, e)
+                rets = [lf for lf in run.leaves if lf.kind == "return"]
+                tag = f"{q} ({label}, {e}-digit exponent)"
+                if len(rets) != 1 or rets[0].state.facts:
+                    ctx.error(f"{tag}: a single decided path", fn, [describe(lf.value) for lf in rets][:4])
+                    continue
+                v = rets[0].value
+                node = rets[0].node
+                inner = inner_of(v)
+                wi, wc, wf = run.width(inner, False), run.width(inner, True), run.width(v, False)
+                if wi is None or wf is None:
+                    ctx.error(f"{tag}: rendering `{describe(v)}` is not modelled", node)
+                    continue
+                ok = wi == W and wf == W
+                ctx.check(ok, f"{tag}: mantissa + {'D + ' if extra else ''}sign + exponent digits fill exactly {W} characters", node,
+                          None if ok else {"characters": wi, "after justification": wf, "rendering": describe(v)})
+                okc = wc is not None and wc <= W
+                ctx.check(okc, f"{tag}: a mantissa that rounds up to 10 still fits (its zeros are stripped)", node,
+                          None if okc else {"characters": wc}, nontrivial=False)
+                ps = run.mantissa_precision(v)
+                ok = len(ps) == 1 and min(ps) >= 0
+                ctx.check(ok, f"{tag}: mantissa precision is non-negative", node, sorted(ps), nontrivial=False)
+                if len(ps) == 1:
+                    finals[(neg, e)] = min(ps)
+                firsts |= first_stage_precision(v, run.param)
+                if e == 1:
+                    pcs = run.pieces(v)
+                    kinds = [k for k, _ in pcs]
+                    lits = "".join(t for k, t in pcs if k == "lit")
+                    want = extra + ("-" if small else "+")
+                    ok = kinds == ["mantissa", "lit", "exp"] and lits == want
+                    ctx.check(ok, f"{tag}: field = mantissa + {want!r} + exponent digits (exponent sign '-' exactly when |value| < 1)", node,
+                              None if ok else {"pieces": [(k, t if k == "lit" else describe(t)) for k, t in pcs]})
+        ctx.check(len(firsts) <= 1, f"{q}: first-stage scientific rendering found", fn, sorted(firsts), nontrivial=False)
+        if len(firsts) == 1 and finals:
+            first = min(firsts)
+            widest = max(finals.values())
+            ok = first - widest >= 2
+            ctx.check(ok, f"{q}: first-stage `e` precision ({first}) exceeds the widest final mantissa precision ({widest}) by >= 2 digits "
+                          "(two-stage rounding slack <= 1 percent of the last digit)", fn,
+                      None if ok else {"first stage": first, "final": widest})
+        # zero
+        from .c12_exec import Interval
+        z = SciRun(ctx, q, "zero", Interval(Fraction(0), True, Fraction(0), True), False, True, 1)
+        rets = [lf for lf in z.leaves if lf.kind == "return"]
+        okz = len(rets) == 1 and isinstance(rets[0].value, Lit) and len(rets[0].value.s) == W and rets[0].value.s.strip().startswith("0.")
+        ctx.check(okz, f"{q}: zero is rendered in exactly {W} characters", rets[0].node if rets else fn,
+                  None if okz else [describe(lf.value) for lf in rets])
 
-    def loop_exits(fn):
-        loops = [n for n in fn.body if isinstance(n, ast.While)]
-        if len(loops) != 1:
-            raise AnchorError(f"{fn.name}: continuation loop")
-        exits = []
-        for n in ast.walk(loops[0]):
-            if isinstance(n, (ast.Break, ast.Return)):
-                p_ = parent(n)
-                exits.append(utext(p_.test) if isinstance(p_, ast.If) else "unconditional")
-        return loops[0], exits
 
-    lf, ef = loop_exits(fx)
-    lc, ec = loop_exits(cm)
-    want = "sisNoneorlen(s)==0orconchar.find(s[0])<0"
-    ok = ef == [want]
-    ctx.check(ok, "_rdfixed: a card ends only when the next line is missing, empty or does not start with a continuation character - "
-                  "a continuation line whose fields are all blank does not end the card", lf,
-              None if ok else {"exits": ef, "consequence": "fields after a whole blank continuation line are lost, while the comma form of the same card reads fully"})
-    ok = ec == [want]
-    ctx.check(ok, "_rdcomma: the same single exit condition (fixed-field and free-field forms of a card read identically)", lc, None if ok else ec)
-    for fn, lp in ((fx, lf), (cm, lc)):
-        t = utext(lp)
-        ok = "foriinrange(i,nfields):vals.append(blank)" in t.replace("\n", "") and "i=nfields" in t and "nfields+=inc" in t
-        ctx.check(ok, f"{fn.name}: every line is padded with blanks up to a whole number of fields and the field count advances by `inc` per line", lp)
-    t = utext(fx)
-    ok = "ifn>8:inc=4else:inc=8" in t.replace("\n", "") and "maxstart=72-n" in t and "j=8" in t and "j+=n" in t and "whilej<=maxstartandlength>j:" in t \
-        and "v=nas_sscanf(s[j:j+n],tolist)" in t
-    ctx.check(ok, "_rdfixed: fields start at column 8, are n wide, the last one starts at 72 - n, 8 (small) or 4 (large) fields per line", fx)
-    ok = "s=_proc_line(s[:72])" in t
-    ctx.check(ok, "_rdfixed: only the first 72 columns of a line are data", fx)
-    t = utext(cm)
-    ok = "inc=8" in t and "lentok=min(len(tok),9)" in t and "start_field=1" in t
-    ctx.check(ok, "_rdcomma: 8 data fields per line after the name / continuation field", cm)
-    # writers
-    w8 = ctx.src.func(BULK, "wtcard8")
-    t = utext(w8)
-    ok = "ifi>0andi%8==0:f.write('\\n+')" in t.replace("\n", "").replace("+       ", "+").replace("'\\n+'", "'\\n+'") or "ifi>0andi%8==0:" in t
-    heads = [n.value for n in ast.walk(w8) if isinstance(n, ast.Constant) and isinstance(n.value, str) and n.value.startswith("\n")]
-    ok = ok and any(h == "\n+       " for h in heads)
-    ctx.check(ok, "wtcard8: a continuation (8-column head starting with '+') is inserted after every 8 fields", w8, heads)
-    ok = "f.write(''*8)" in t and "f'{field:<8s}'" in t and "f'{field:8d}'" in t and "format_float8(field)" in t
-    ctx.check(ok, "wtcard8: blank, string, integer and real fields are all 8 columns wide", w8)
-    w16 = ctx.src.func(BULK, "_wtcard16")
-    t = utext(w16)
-    heads = [n.value for n in ast.walk(w16) if isinstance(n, ast.Constant) and isinstance(n.value, str) and "\n" in n.value and len(n.value) > 1]
-    ok = "ifi>0andi%8==0:" in t and "elifi>0andi%4==0:" in t and "*\n*       " in heads and "\n*       " in heads
-    ctx.check(ok, "_wtcard16: 4 fields of 16 per line; continuation heads are 8 columns starting with '*'", w16, heads)
-    ok = "f.write(''*16)" in t and "f'{field:<16s}'" in t and "f'{field:16d}'" in t and "float_formatter(field)" in t
-    ctx.check(ok, "_wtcard16: blank, string, integer and real fields are all 16 columns wide", w16)
-    ok = "ifn_lines%2!=0:f.write('\\n*')" in t.replace("\n", "") or ("n_lines%2!=0" in t and "'\\n*'" in t)
-    ctx.check(ok, "_wtcard16: large-field cards are closed to an even number of lines", w16, nontrivial=False)
-    # the continuation characters the reader accepts include the ones the writers emit
-    rc = ctx.src.func(BULK, "rdcards")
-    t = utext(rc)
-    sel = [n for n in ast.walk(rc) if isinstance(n, ast.Assign) and utext(n.targets[0]) in ("field,continuation", "(field,continuation)")]
-    ok = len(sel) == 1 and utext(sel[0].value) in ("(16,'*')ifp>-1else(8,'+')", "(16,'*')ifp>-1else(8,' +')".replace(" ", ""))
-    ok = ok and "p=s[:8].find('*')" in t
-    ctx.check(ok, "rdcards: a card whose name field contains '*' is read with 16-wide fields and '*' continuations, otherwise 8-wide fields and "
-                  "blank/'+' continuations - the heads written by _wtcard16 and wtcard8", sel[0] if sel else rc, utext(sel[0].value) if sel else None)
-    ok = "_rdfixed(fiter,s,field,continuation,blank,tolist,keep_name)" in t and "_rdcomma(fiter,s,'+,',blank,tolist,keep_name)" in t
-    ctx.check(ok, "rdcards: the fixed reader receives that width and continuation set; the comma reader accepts blank, '+' and ',' continuations", rc)
-
+from .c12_cards import r3_card_grid  # noqa: E402
 
 RULES = [
     ("C12-R3", r3_card_grid, 10),
-    ("C12-R1", r1_ladder, 150),
-    ("C12-R1b", r1b_integer_arm, 4),
-    ("C12-R2", r2_scientific, 33),
-    ("C12-R2b", r2b_paths, 14),
+    ("C12-R1", r1_ladder, 140),
+    ("C12-R1b", r1b_integer_arm, 8),
+    ("C12-R2", r2_scientific, 120),
+    ("C12-R2b", r2b_paths, 50),
 ]
 LEVEL = "other"
-EXPLANATION = ("Static width/precision analysis of the fixed-notation decade ladders of format_float8/16 (every rung: one decade, "
-               "sign+digits+point+precision-stripped zero = field width exactly, carry case fits, precision steps by one), of the "
-               "integer-rounding arms (guard domain), of the three scientific helpers (mantissa+exponent width identity in the exponent "
-               "length, two-stage rounding margin) and of every return path.")
+EXPLANATION = ("Static width/precision analysis of format_float8/16 on (interval, rendering) leaves: every decade in which fixed notation "
+               "is the more precise form is rendered fixed with sign+digits+point+precision-stripped zero = field width exactly, the carry "
+               "case fits; arms that print a rounded value are reached only by values whose rounding fits (decided per rounding regime); the "
+               "three scientific helpers fill exactly the width for both signs and 1-3 exponent digits and keep the two-stage rounding "
+               "margin; every return path is width-exact; card grid of writers and generic reader.")
 MANIFEST = {
     "text": "Partial claim decided statically for all finite doubles of each rung: every fixed-notation rung of format_float8/format_float16 is one "
             "decade wide and renders exactly the field width with the maximal precision that width allows, including the rounding-carry case; "
@@ -509,6 +232,6 @@ MANIFEST = {
             "fill exactly the width for every exponent length and sign and keep >= 2 digits of two-stage rounding margin; every return is width-formatted. "
             "Not decided: the sub-0.001 fixed-vs-scientific choice (float(field1) == float(field2), runtime), last-digit accuracy of the "
             "scientific fallback, nas_sscanf on arbitrary text, card reader round trip (see evidence notes).",
-    "note": "Trusted: CPython ast; Python format-spec semantics for 'f', 'e', 'd', 's' as modelled in verifier/c12.py.",
-    "technique": "static format-spec width/precision abstract interpretation over the decade-branch chains + symbolic width identities",
+    "note": "Trusted: CPython ast; Python format-spec semantics for 'f', 'e', 'd', 's' as modelled in verifier/c12_str.py and c12_model.py.",
+    "technique": "static format-spec width/precision abstract interpretation over interval-split paths + column model of the renderings",
 }
